@@ -215,7 +215,7 @@ func TestC10(t *testing.T) {
 		"a generated program (scalars, functions, slices, strings, every loop form) and an injective renaming of its variables, parameters and functions into pools: compiler-shaped names (_h<n>, _rv<n>, _ma<n>, _fv<n>, _dv<n>, _dvc, helper scratch variables, mangled locals f<k>_x, Batch-owned names, helper routines; the pools are extended by every assignment target and function name found in the emitted script of the base program that is not a user spelling), shell-owned names (builtins, special/environment variables, reserved words), and random legal identifiers; functions and variables are renamed independently. Oracle (metamorphic): the renamed program is rejected by Transpile or shows the base program's stdout, exit status and stderr-emptiness under bash, and (for programs inside the 32-bit domain) the same relation for the Batch script under the cmd.exe model, where names differing only in letter case are part of the pools. Non-trivial = at least one identifier mapped into a compiler-shaped or shell-owned pool; distinct by renamed source.",
 		[]string{"the Batch half runs under the cmd.exe model of C05 (its runs outside the model are inconclusive, never verdicts)", "a variable and a function never receive the same spelling (not asserted by the property)", "the base program itself is validated by the reference interpreter (invalid or non-terminating bases are discarded)"})
 	defer r.Flush()
-	cfg := gen.Cfg{MaxStmts: 18, MaxDepth: 3, ExprDepth: 3, Funcs: true, MaxFuncs: 3, Slices: true, StrOps: true, LoopBudget: 10, DumpGlobal: true, CmdNeutral: true, ErrSpell: true}
+	cfg := gen.Cfg{MaxStmts: 18, MaxDepth: 3, ExprDepth: 3, Funcs: true, MaxFuncs: 3, Slices: true, StrOps: true, LoopBudget: 10, DumpGlobal: true, CmdNeutral: true, ErrSpell: true, BareExpr: true}
 	if e.Thorough() {
 		cfg.MaxStmts, cfg.MaxFuncs, cfg.LoopBudget = 35, 5, 20
 	}
